@@ -4,7 +4,102 @@ import ModbusVerif.Props.C01Src
 /-
   C01, source tie for the CONSTRUCTION OF THE BYTES of a request.
 
-  (header completed at the end of the file's development; see the final version)
+  Props/C01.lean proves "the bytes on the wire are the Modbus encoding of the operation" about the
+  hand-written models `Client.Core.request` / `Client.Op.core` (Model/Client.lean), `Mbap.assemble`
+  (Model/Mbap.lean), `Rtu.assemble` (Model/Rtu.lean). Props/C01Src.lean ties the ARGUMENT CHECKS and the
+  function codes of the Go source to those models. Here the BYTES are tied: the richer rendering
+  `Gen.gsp_<fn>` of the functions that build byte strings (regenerated from /repo on every run; every
+  `append`, `[]byte{…}` and codec call is a call statement) is EVALUATED by `Modbus.GoEval` against the
+  world `sliceWorld` of Lemmas/GoEvalBytesLemmas.lean and the bytes the final call log denotes are proved
+  equal to the models', FOR ALL INPUTS. No disagreement between source and model was found.
+
+  ## What is proved  (`W = sliceWorld ext`; `bytesAt log h` = the bytes handle `h` denotes in `log`)
+  1. `C01B_mbap_frame`      `gsp_tcpTransport_assembleMBAPFrame`, every transaction id, unit id, function code,
+                            payload `pl` (NO length bound: `uint16(2 + len(p.payload))` wraps in the source and in
+                            `Mbap.assemble` alike — the statement has the wrapped length `u16OfNat (2 + len)`), any
+                            entry log holding `pl`, any environment binding the parameters, fuel ≥ 16: returns
+                            after exactly the seven slice operations `mbapCalls`; `payload` is the handle of
+                            `be16 txn ++ [0,0] ++ be16 (u16OfNat (2+len)) ++ [unit, fc] ++ pl = Mbap.assemble txn ⟨unit, fc, pl⟩`.
+                            `C01B_mbap_frame_small`: for `len ≤ 253` the length field is `[0, 2 + len]` exactly.
+  2. `C01B_rtu_frame`       `gsp_rtuTransport_assembleRTUFrame`: returns after exactly `rtuCalls`; `crc.add` is called
+                            on the handle of exactly `[unit, fc] ++ pl`; `adu` is the handle of
+                            `[unit, fc] ++ pl ++ Crc.crc16 ([unit, fc] ++ pl) = Rtu.assemble ⟨unit, fc, pl⟩`.
+  3. `C01B_core_payloads`   the six core functions (`coreStmtP`), EVERY argument in the range of its Go type
+                            (`coreInRange` of C01Src: lengths < 2^63, `quantity` < 2^32), every unit id, any entry
+                            log holding the slice argument, `ext` cutting the run at `mc.executeRequest`, fuel ≥ 64:
+                            `builtOf run = builtModel (Core.request)`, i.e. (`C01B_core_payloads_spelled`) the run is a
+                            refusal that performed no call exactly when the model refuses, and otherwise stops at
+                            `mc.executeRequest(req)` with `req.unitId`, `req.functionCode` the model's and
+                            `req.payload` the handle of EXACTLY the model's payload bytes. `C01B_request_shapes`
+                            spells the payloads out: `writeRegisters`: `be16 addr ++ be16 (uint16(len)/2) ++
+                            [byte(uint16(len))] ++ values`; `WriteCoils`: `… ++ [byte(len(encodeBools values))] ++
+                            encodeBools values`; `WriteCoil`: `be16 addr ++ [0xff,0x00] / [0x00,0x00]`; `WriteRegister`:
+                            `be16 addr ++ uint16ToBytes mc.endianness value` (`C01B_WriteRegister_any`: any value of
+                            the byte-order field). The limit checks are re-derived on the `gsp_` terms (same
+                            verdict technique as C01Src; F1-type lengths ≥ 65536 are inside the quantifier).
+  4. `C01B_multi_payloads`  `WriteRegisters`, `WriteUint32s`, `WriteFloat32s`, `WriteUint64s`, `WriteFloat64s`: every
+                            value list of length < 2^63, every pair of values returned by `mc.encoding`, fuel ≥ len + 20:
+                            the run reaches `mc.writeRegisters(addr, payload)` with `payload` the handle of the
+                            concatenation, in order, of the model codec of every value = the payload of
+                            `Op.core` (`C01B_multi_model`). `C01B_multi_instr`: the evaluated term is the generated
+                            one with the `withProbe` pseudo-call at the head of the loop body, `stripProbe` gives
+                            the generated term back. `C01B_multi_compose`: that handle, given to `writeRegisters`
+                            (item 3) on the wrapper's final log, reaches `mc.executeRequest` as `Core.writeRegs addr pl`.
+  5. `C01B_writeBytes`      `gsp_ModbusClient_writeBytes` when no swap is requested (`!observeEndianness` or byte
+                            order ≠ LITTLE_ENDIAN), every input: exactly the private copy
+                            `append(make([]byte,0,len+1), values...)` then `append(values, 0x00)` EXACTLY WHEN the
+                            length is odd; `mc.writeRegisters` receives the handle of `writeBytesPayload …`.
+     `C01B_writeBytes_le`   the little-endian swap, every input of length < 2^62. The loop assigns ELEMENTS of the
+                            slice (`values[i], values[i+1] = values[i+1], values[i]`): the handle device has
+                            immutable objects, so this needs a (small) STORE MODEL, see below. With it: the loop
+                            runs ⌈len/2⌉ rounds, performs no slice operation, and the stores applied to the padded
+                            private copy give exactly `swapPairs padded = writeBytesPayload .little true bs`.
+  6. sensitivity            eight variants DERIVED from the generated terms (`byte(quantity)`, addr/quantity
+                            exchanged, `00 ff`, unit/fc exchanged and length without the 2 in MBAP, CRC over the
+                            payload only, reversed `append`, prepending loop) give different bytes on a concrete
+                            input (`C01B_variants` shows they differ from the generated term in the intended call
+                            only); the true terms give the textbook frames (`01 03 00 00 00 01 84 0A`,
+                            `00 01 00 00 00 06 01 03 00 00 00 01`, `11 05 00 AC FF 00 4E 8B`,
+                            `11 10 00 01 00 02 04 00 0A 01 02 C6 F0`, `11 01 00 13 00 25 0E 84`); without the probe
+                            every register written is the first one.
+
+  ## What is MODELLED rather than derived from the generated terms
+  * THE HANDLE DEVICE (Lemmas/GoEvalBytesLemmas.lean). A slice value is a HANDLE = the position in the call log
+    of the call that created it; `sliceWorld` answers every slice-producing call with its own position; input
+    slices are `("#input", …)` pseudo-entries of the entry log (hypotheses `bytesAt cs0 h = some …`; the nil
+    named results `adu`, `payload` and the fresh `make([]byte, 0, len+1)` are handles of an empty entry, bound
+    in the entry environment). `bytesAt` interprets the log from left to right.
+  * `append(b, e…)` / `append(b, s...)` IS CONCATENATION INTO A FRESH OBJECT; operands keep their contents.
+    Whether the result shares the backing array of `b` is not represented (aliasing: property C18,
+    Props/C18Src.lean shows `writeBytes` works on a private copy).
+  * THE CODEC CALLS `uint16ToBytes`, `uint32ToBytes`, `float32ToBytes`, `uint64ToBytes`, `float64ToBytes`,
+    `encodeBools` and `crc.init` / `crc.add` / `crc.value` are interpreted by the MODEL codecs (`Enc.*`, `Crc.*`) on
+    the argument VALUES in the log (selector 1 / 2 ↦ big / little, high / low word first, anything else ↦ no case
+    matches; the value modulo 2^16 / 2^32 / 2^64). The source codecs are tied to these models in Props/C17Src.lean
+    and Props/C06Src.lean. A `float32` / `float64` value is its IEEE-754 bit pattern as an integer (as in
+    `Client.Op`), `float32ToBytes e w v` is `Enc.uint32ToBytes e w` of the pattern.
+  * LEAF TEXTS. Leaves are keyed by their text. `len(p.payload)`, `len(values)` are bound to the length of the
+    bytes the handle denotes (hypothesis of the entry environment). `len(encodedValues)` in `WriteCoils` is read
+    after `encodedValues` is assigned: `coreEnvB` binds it to the length of the model's `encodeBools values`
+    (the meaning of the leaf, a hypothesis). `values[#i]` (element `#i` of the parameter) is re-bound before every
+    round by the removable `withProbe` pseudo-call `#values[#i](#i)`, answered from the value list and the VALUE
+    of `#i` (`probeInts`; `C01B_sensitive_noProbe` shows why). `req.unitId` / `req.functionCode` are the
+    per-field assignments the translator emits after the composite literal.
+  * COMPOSITION (`C01B_multi_compose`, `rtuFrameOf` / `mbapFrameOf` in §6): the callee's entry environment is
+    formed from the caller's argument values (`values` := the handle, `len(values)` := the length of its bytes).
+  * THE STORE MODEL of `C01B_writeBytes_le` (only there). Two more removable instrumentations: probes
+    `values[i] := #values[i](i)`, `values[i+1] := #values[i+1](i)` at the head of the loop body, and an
+    observation `#store values[i](i, values[i])` / `#store values[i+1](i, values[i+1])` after each of the two
+    element assignments (`withStoreObs`; `strip_wbGs`: stripping everything gives the generated term).
+    `storeOf pd log` = `pd` with the logged stores applied in order (`values[i]` ↦ element `i`, `values[i+1]` ↦
+    element `i + 1`, `i` being the logged value); the probes answer from `storeOf pd (log so far)`, i.e. from the
+    CURRENT contents. The object denoted by the handle keeps its creation-time contents (`padded`); the final
+    contents are `storeOf padded log`. NOT represented: that the caller's slice is untouched (C18), and the
+    identity of the stored-to array with the handle's object (the leaf text `values[i]` is read as "element `i` of
+    the slice in `values`"). `len(values)` is ONE key: it is bound to the original length, which the parity test
+    reads; the loop test reads the same key although Go's `values` is padded by then — for the even `i` of the
+    loop both give the same truth value (`C01B_stale_len_harmless`).
+  * Bounds: lengths < 2^63 (Go `int`), < 2^62 for the swap loop (`i += 2` must not wrap).
 -/
 set_option linter.unusedSimpArgs false
 set_option linter.unusedVariables false
@@ -534,6 +629,22 @@ theorem C01B_request_shapes :
     all_goals first | (simp only [perr, reduceCtorEq] at h; done) | skip
     all_goals (simp only [Except.ok.injEq, Prod.mk.injEq] at h; obtain ⟨h1, h2⟩ := h; subst h1 h2;
                first | exact ⟨rfl, rfl⟩ | exact ⟨by simp [*], rfl⟩)
+
+/-- `WriteRegister` for ANY value of the receiver's byte order field (not only the three that
+    `intOfEndian` produces): the value is encoded by the model codec at `endianOfInt ev` -/
+theorem C01B_WriteRegister_any (ext : World) (hx : CutsAtExecute ext) (cs0 : Calls) (unit : Byte) (ev : Int)
+    (addr v : U16) (fuel : Nat) (hf : 64 ≤ fuel) :
+    SendsB (execFromW (sliceWorld ext) fuel gsp_ModbusClient_WriteRegister
+      [("mc.unitId", .int (unit.toNat : Int)), ("mc.endianness", .int ev), ("addr", .int (addr.toNat : Int)),
+       ("value", .int (v.toNat : Int)), ("err", .sym "nil")] cs0) unit 6
+      (be16 addr ++ Enc.uint16ToBytes (endianOfInt ev) v) := by
+  obtain ⟨m, rfl⟩ : ∃ m, fuel = m + 64 := ⟨fuel - 64, by omega⟩
+  apply builtOf_sends
+  go_built [gsp_ModbusClient_WriteRegister, hx _ _]
+  apply sendsAt_sends
+  case hb => slice_solve
+  all_goals first | rfl | skip
+  simp only [endianOfInt_1, Enc.uint16ToBytes, ofInt16_toNat]
 
 /-! ## 4. the loops of `WriteRegisters`, `WriteUint32s`, `WriteFloat32s`, `WriteUint64s`, `WriteFloat64s` -/
 
@@ -1507,6 +1618,257 @@ theorem C01B_writeBytes_le (w : Int) (bs : Bytes) (hn : bs.length < 2^62) (addr 
     rw [hfin]
     exact swapPairs_eq_swapFirst _ padded (by rw [hp]; omega)
 
+/-- the model's typed wrapper for `WriteBytes` / `WriteRawBytes` is `writeBytesPayload` followed by the
+    core call `writeRegs` (what `C01B_writeBytes`, `C01B_writeBytes_le` and `C01B_multi_compose` tie to) -/
+theorem C01B_writeBytes_model (cfg : Cfg) (a : U16) (bs : Bytes) :
+    Op.core cfg (.writeBytes a bs) = (writeBytesPayload cfg.endian true bs).map (.writeRegs a) ∧
+    Op.core cfg (.writeRawBytes a bs) = (writeBytesPayload cfg.endian false bs).map (.writeRegs a) :=
+  ⟨rfl, rfl⟩
+
+/-! ## 6. sensitivity: variants derived from the generated terms; concrete runs -/
+section sensitivity
+
+/-- rename the `.var` leaves of an expression -/
+def renE (f : String → String) : GExpr → GExpr
+  | .lit v t => .lit v t
+  | .var x t => .var (f x) t
+  | .call x t => .call x t
+  | .conv t e => .conv t (renE f e)
+  | .bin op t a b => .bin op t (renE f a) (renE f b)
+  | .cmp op a b => .cmp op (renE f a) (renE f b)
+  | .not e => .not (renE f e)
+  | .and a b => .and (renE f a) (renE f b)
+  | .or a b => .or (renE f a) (renE f b)
+
+/-- rename the `.var` leaves in the arguments of the calls to `callee` -/
+def renArgs (callee : String) (f : String → String) : GStmt → GStmt
+  | .seq a b => .seq (renArgs callee f a) (renArgs callee f b)
+  | .ite c t e => .ite c (renArgs callee f t) (renArgs callee f e)
+  | .loop b => .loop (renArgs callee f b)
+  | .bindCall ts g as => if g = callee then .bindCall ts g (as.map (renE f)) else .bindCall ts g as
+  | s => s
+
+/-- exchange the last two of three arguments of the calls to `callee` (`append(b, x, y)` ↦ `append(b, y, x)`;
+    `append(b, s...)` ↦ `append(s, b...)` for a two-argument call) -/
+def swapArgs (callee : String) : GStmt → GStmt
+  | .seq a b => .seq (swapArgs callee a) (swapArgs callee b)
+  | .ite c t e => .ite c (swapArgs callee t) (swapArgs callee e)
+  | .loop b => .loop (swapArgs callee b)
+  | .bindCall ts g [b, x, y] => if g = callee then .bindCall ts g [b, y, x] else .bindCall ts g [b, x, y]
+  | .bindCall ts g [x, y] => if g = callee then .bindCall ts g [y, x] else .bindCall ts g [x, y]
+  | s => s
+
+/-- apply `f` to every literal of a statement's call arguments -/
+def mapLitArgsE (f : Int → GTy → Int) : GExpr → GExpr
+  | .lit v t => .lit (f v t) t
+  | .var x t => .var x t
+  | .call x t => .call x t
+  | .conv t e => .conv t (mapLitArgsE f e)
+  | .bin op t a b => .bin op t (mapLitArgsE f a) (mapLitArgsE f b)
+  | .cmp op a b => .cmp op (mapLitArgsE f a) (mapLitArgsE f b)
+  | .not e => .not (mapLitArgsE f e)
+  | .and a b => .and (mapLitArgsE f a) (mapLitArgsE f b)
+  | .or a b => .or (mapLitArgsE f a) (mapLitArgsE f b)
+
+def mapLitArgs (f : Int → GTy → Int) : GStmt → GStmt
+  | .seq a b => .seq (mapLitArgs f a) (mapLitArgs f b)
+  | .ite c t e => .ite c (mapLitArgs f t) (mapLitArgs f e)
+  | .loop b => .loop (mapLitArgs f b)
+  | .bindCall ts g as => .bindCall ts g (as.map (mapLitArgsE f))
+  | s => s
+
+def swapNames (a b : String) (x : String) : String := if x = a then b else if x = b then a else x
+
+/-- `crc.init` / `crc.add` are performed, nothing else is answered -/
+def sensExt : World := fun _ f _ =>
+  if f = "crc.init" then some [] else if f = "crc.add" then some [] else none
+
+/-- the bytes the handle in variable `key` denotes at the end of a run -/
+def frameOf (r : Res) (key : String) : Option Bytes :=
+  match Env.read r.env key with
+  | .int h => if 0 ≤ h then bytesAt r.calls h.toNat else none
+  | _ => none
+
+/-- run a core function (term `gs`) for the core call `c`, unit id `unit`; the entry log holds the nil
+    slice at handle 0 and the slice argument `arg` at handle 1 -/
+def coreRun (gs : GStmt) (unit : Byte) (c : Core) (arg : List Int) : Res :=
+  execFromW (sliceWorld sensExt) 64 gs (coreEnvB unit 1 c) [seedInput [], seedInput arg]
+
+/-- the environment of a transport's `assemble…Frame(p)` for the request object a core run built -/
+def pduEnv (r : Res) (txn : Int) : Env :=
+  [("p.unitId", Env.read r.env "req.unitId"), ("p.functionCode", Env.read r.env "req.functionCode"),
+   ("p.payload", Env.read r.env "req.payload"),
+   ("len(p.payload)", match frameOf r "req.payload" with | some b => .int (b.length : Int) | none => .unk),
+   ("adu", .int 0), ("txnId", .int txn)]
+
+/-- core function, then RTU framing (term `tr`) of what it built: the frame -/
+def rtuFrameOf (gs tr : GStmt) (unit : Byte) (c : Core) (arg : List Int) : Option Bytes :=
+  let r := coreRun gs unit c arg
+  frameOf (execFromW (sliceWorld sensExt) 32 tr (pduEnv r 0) r.calls) "adu"
+
+/-- core function, then MBAP framing with transaction id `txn` -/
+def mbapFrameOf (gs tr : GStmt) (unit : Byte) (c : Core) (arg : List Int) (txn : Int) : Option Bytes :=
+  let r := coreRun gs unit c arg
+  frameOf (execFromW (sliceWorld sensExt) 32 tr (pduEnv r txn) r.calls) "payload"
+
+/-- **textbook frames from the true terms**: read one holding register at 0 from unit 1 -/
+theorem C01B_sample_frames :
+    rtuFrameOf gsp_ModbusClient_readRegisters gsp_rtuTransport_assembleRTUFrame 1 (.readRegs 0 1 0) [] =
+      some [0x01, 0x03, 0x00, 0x00, 0x00, 0x01, 0x84, 0x0A] ∧
+    mbapFrameOf gsp_ModbusClient_readRegisters gsp_tcpTransport_assembleMBAPFrame 1 (.readRegs 0 1 0) [] 1 =
+      some [0x00, 0x01, 0x00, 0x00, 0x00, 0x06, 0x01, 0x03, 0x00, 0x00, 0x00, 0x01] := by
+  decide +kernel
+
+/-- the request payload a core run built -/
+def corePayloadOf (gs : GStmt) (unit : Byte) (c : Core) (arg : List Int) : Option Bytes :=
+  frameOf (coreRun gs unit c arg) "req.payload"
+
+/-- more frames from the true terms: write coil 0x00AC ON at unit 0x11; write two registers
+    (0x000A, 0x0102) at 0x0001, unit 0x11; read 37 coils at 0x0013 -/
+theorem C01B_sample_frames_more :
+    rtuFrameOf gsp_ModbusClient_WriteCoil gsp_rtuTransport_assembleRTUFrame 0x11 (.writeCoil 0x00AC true) [] =
+      some [0x11, 0x05, 0x00, 0xAC, 0xFF, 0x00, 0x4E, 0x8B] ∧
+    rtuFrameOf gsp_ModbusClient_writeRegisters gsp_rtuTransport_assembleRTUFrame 0x11
+        (.writeRegs 0x0001 [0x00, 0x0A, 0x01, 0x02]) [0x00, 0x0A, 0x01, 0x02] =
+      some [0x11, 0x10, 0x00, 0x01, 0x00, 0x02, 0x04, 0x00, 0x0A, 0x01, 0x02, 0xC6, 0xF0] ∧
+    rtuFrameOf gsp_ModbusClient_readBools gsp_rtuTransport_assembleRTUFrame 0x11 (.readBools false 0x0013 0x0025) [] =
+      some [0x11, 0x01, 0x00, 0x13, 0x00, 0x25, 0x0E, 0x84] ∧
+    mbapFrameOf gsp_ModbusClient_WriteRegister gsp_tcpTransport_assembleMBAPFrame 0x11
+        (.writeReg .little 0x0001 0x0003) [] 0x1234 =
+      some [0x12, 0x34, 0x00, 0x00, 0x00, 0x06, 0x11, 0x06, 0x00, 0x01, 0x03, 0x00] := by
+  decide +kernel
+
+/-- byte count `byte(quantity)` instead of `byte(payloadLength)` in `writeRegisters` -/
+def vByteCountQuantity : GStmt :=
+  renArgs "append" (fun x => if x = "payloadLength" then "quantity" else x) gsp_ModbusClient_writeRegisters
+/-- address and quantity exchanged in `readBools` -/
+def vAddrQtySwapped : GStmt := renArgs "uint16ToBytes" (swapNames "addr" "quantity") gsp_ModbusClient_readBools
+/-- `0x00 0xff` instead of `0xff 0x00` in `WriteCoil` -/
+def vCoilBytesSwapped : GStmt := swapArgs "append" gsp_ModbusClient_WriteCoil
+/-- unit id and function code exchanged in the MBAP frame -/
+def vMbapUnitFcSwapped : GStmt :=
+  renArgs "append" (swapNames "p.unitId" "p.functionCode") gsp_tcpTransport_assembleMBAPFrame
+/-- MBAP length field `len(p.payload)` instead of `2 + len(p.payload)` -/
+def vMbapLenNoHeader : GStmt :=
+  mapLitArgs (fun v t => if v = 2 ∧ t = .int then 0 else v) gsp_tcpTransport_assembleMBAPFrame
+/-- CRC over the payload only -/
+def vCrcPayloadOnly : GStmt :=
+  renArgs "crc.add" (fun x => if x = "adu" then "p.payload" else x) gsp_rtuTransport_assembleRTUFrame
+/-- CRC appended in front: `append(crc.value(), adu...)` (and every other `append(a, b...)` reversed) -/
+def vRtuAppendReversed : GStmt := swapArgs "append..." gsp_rtuTransport_assembleRTUFrame
+/-- `WriteUint32s` prepending instead of appending: `payload = append(chunk, payload...)` -/
+def vMultiPrepend : GStmt := swapArgs "append..." gsp_ModbusClient_WriteUint32s
+
+/-- the variants differ from the generated terms exactly in the intended calls (leaf texts of the
+    arguments; `none` = compound expression) -/
+theorem C01B_variants :
+    (callTextsOf vByteCountQuantity).filter (fun c => c.1 == "append") =
+      [("append", [some "req.payload", none])] ∧
+    (callTextsOf vAddrQtySwapped).filter (fun c => c.1 == "uint16ToBytes") =
+      [("uint16ToBytes", [none, some "quantity"]), ("uint16ToBytes", [none, some "addr"])] ∧
+    (callTextsOf gsp_ModbusClient_readBools).filter (fun c => c.1 == "uint16ToBytes") =
+      [("uint16ToBytes", [none, some "addr"]), ("uint16ToBytes", [none, some "quantity"])] ∧
+    (callTextsOf vMbapUnitFcSwapped).filter (fun c => c.1 == "append") =
+      [("append", [some "payload", none, none]), ("append", [some "payload", some "p.functionCode"]),
+       ("append", [some "payload", some "p.unitId"])] ∧
+    (callTextsOf vCrcPayloadOnly).filter (fun c => c.1 == "crc.add") = [("crc.add", [some "p.payload"])] ∧
+    (callTextsOf gsp_rtuTransport_assembleRTUFrame).filter (fun c => c.1 == "crc.add") =
+      [("crc.add", [some "adu"])] ∧
+    (callTextsOf vMultiPrepend).filter (fun c => c.1 == "append...") =
+      [("append...", [some "#arg0", some "payload"])] := by
+  decide +kernel
+
+/-- `byte(quantity)`: the byte count of two registers is 02 instead of 04 -/
+theorem C01B_sensitive_byteCount :
+    corePayloadOf vByteCountQuantity 0x11 (.writeRegs 0x0001 [0x00, 0x0A, 0x01, 0x02]) [0x00, 0x0A, 0x01, 0x02] =
+      some [0x00, 0x01, 0x00, 0x02, 0x02, 0x00, 0x0A, 0x01, 0x02] ∧
+    corePayloadOf gsp_ModbusClient_writeRegisters 0x11 (.writeRegs 0x0001 [0x00, 0x0A, 0x01, 0x02])
+        [0x00, 0x0A, 0x01, 0x02] =
+      some [0x00, 0x01, 0x00, 0x02, 0x04, 0x00, 0x0A, 0x01, 0x02] := by
+  decide +kernel
+
+theorem C01B_sensitive_addrQty :
+    corePayloadOf vAddrQtySwapped 0x11 (.readBools false 0x0013 0x0025) [] = some [0x00, 0x25, 0x00, 0x13] ∧
+    corePayloadOf gsp_ModbusClient_readBools 0x11 (.readBools false 0x0013 0x0025) [] =
+      some [0x00, 0x13, 0x00, 0x25] := by
+  decide +kernel
+
+theorem C01B_sensitive_coilBytes :
+    corePayloadOf vCoilBytesSwapped 0x11 (.writeCoil 0x00AC true) [] = some [0x00, 0xAC, 0x00, 0xFF] ∧
+    corePayloadOf gsp_ModbusClient_WriteCoil 0x11 (.writeCoil 0x00AC true) [] = some [0x00, 0xAC, 0xFF, 0x00] ∧
+    corePayloadOf gsp_ModbusClient_WriteCoil 0x11 (.writeCoil 0x00AC false) [] = some [0x00, 0xAC, 0x00, 0x00] := by
+  decide +kernel
+
+theorem C01B_sensitive_mbap :
+    mbapFrameOf gsp_ModbusClient_readRegisters vMbapUnitFcSwapped 1 (.readRegs 0 1 0) [] 1 =
+      some [0x00, 0x01, 0x00, 0x00, 0x00, 0x06, 0x03, 0x01, 0x00, 0x00, 0x00, 0x01] ∧
+    mbapFrameOf gsp_ModbusClient_readRegisters vMbapLenNoHeader 1 (.readRegs 0 1 0) [] 1 =
+      some [0x00, 0x01, 0x00, 0x00, 0x00, 0x04, 0x01, 0x03, 0x00, 0x00, 0x00, 0x01] ∧
+    mbapFrameOf gsp_ModbusClient_readRegisters vMbapUnitFcSwapped 1 (.readRegs 0 1 0) [] 1 ≠
+      mbapFrameOf gsp_ModbusClient_readRegisters gsp_tcpTransport_assembleMBAPFrame 1 (.readRegs 0 1 0) [] 1 ∧
+    mbapFrameOf gsp_ModbusClient_readRegisters vMbapLenNoHeader 1 (.readRegs 0 1 0) [] 1 ≠
+      mbapFrameOf gsp_ModbusClient_readRegisters gsp_tcpTransport_assembleMBAPFrame 1 (.readRegs 0 1 0) [] 1 := by
+  decide +kernel
+
+theorem C01B_sensitive_crc :
+    rtuFrameOf gsp_ModbusClient_readRegisters vCrcPayloadOnly 1 (.readRegs 0 1 0) [] ≠
+      rtuFrameOf gsp_ModbusClient_readRegisters gsp_rtuTransport_assembleRTUFrame 1 (.readRegs 0 1 0) [] ∧
+    rtuFrameOf gsp_ModbusClient_readRegisters vCrcPayloadOnly 1 (.readRegs 0 1 0) [] =
+      some ([0x01, 0x03, 0x00, 0x00, 0x00, 0x01] ++ Crc.crc16 [0x00, 0x00, 0x00, 0x01]) ∧
+    rtuFrameOf gsp_ModbusClient_readRegisters vRtuAppendReversed 1 (.readRegs 0 1 0) [] ≠
+      rtuFrameOf gsp_ModbusClient_readRegisters gsp_rtuTransport_assembleRTUFrame 1 (.readRegs 0 1 0) [] := by
+  decide +kernel
+
+/-- the payload a wrapper hands to `mc.writeRegisters` (entry log: the nil slice at handle 0) -/
+def multiPayloadOf (gs : GStmt) (e w : Int) (vals : List Int) : Option Bytes :=
+  match (multiRun gs e w vals 0 0 [seedInput []] 40).how with
+  | .stoppedAt _ [_, .int h] => if 0 ≤ h then
+      bytesAt (multiRun gs e w vals 0 0 [seedInput []] 40).calls h.toNat else none
+  | _ => none
+
+theorem C01B_sensitive_multi :
+    multiPayloadOf gsp_ModbusClient_WriteUint32s 1 1 [0x01020304, 0x0A0B0C0D] =
+      some [0x01, 0x02, 0x03, 0x04, 0x0A, 0x0B, 0x0C, 0x0D] ∧
+    multiPayloadOf gsp_ModbusClient_WriteUint32s 1 2 [0x01020304, 0x0A0B0C0D] =
+      some [0x03, 0x04, 0x01, 0x02, 0x0C, 0x0D, 0x0A, 0x0B] ∧
+    multiPayloadOf gsp_ModbusClient_WriteUint32s 2 2 [0x01020304, 0x0A0B0C0D] =
+      some [0x04, 0x03, 0x02, 0x01, 0x0D, 0x0C, 0x0B, 0x0A] ∧
+    multiPayloadOf vMultiPrepend 1 1 [0x01020304, 0x0A0B0C0D] =
+      some [0x0A, 0x0B, 0x0C, 0x0D, 0x01, 0x02, 0x03, 0x04] ∧
+    multiPayloadOf gsp_ModbusClient_WriteRegisters 2 1 [0x0102, 0x0304] = some [0x02, 0x01, 0x04, 0x03] ∧
+    multiPayloadOf gsp_ModbusClient_WriteFloat32s 1 1 [0x3F800000] = some [0x3F, 0x80, 0x00, 0x00] ∧
+    multiPayloadOf gsp_ModbusClient_WriteUint64s 1 2 [0x0102030405060708] =
+      some [0x07, 0x08, 0x05, 0x06, 0x03, 0x04, 0x01, 0x02] := by
+  decide +kernel
+
+/-- WITHOUT the probe the leaf `values[#i]` has one value for the whole run: every register is the
+    first one — the reason for the instrumentation -/
+theorem C01B_sensitive_noProbe :
+    (execFromW (sliceWorld (multiExt 1 1 [1, 2])) 40 gsp_ModbusClient_WriteUint32s
+      (("values[#i]", .int 1) :: multiEnv 0 2 0) [seedInput []]).how =
+      .stoppedAt "mc.writeRegisters" [.int 0, .int 5] ∧
+    bytesAt (execFromW (sliceWorld (multiExt 1 1 [1, 2])) 40 gsp_ModbusClient_WriteUint32s
+      (("values[#i]", .int 1) :: multiEnv 0 2 0) [seedInput []]).calls 5 =
+      some [0, 0, 0, 1, 0, 0, 0, 1] := by
+  decide +kernel
+
+/-- `writeBytes` on `01 02 03`: big-endian (or raw): copy + padding, `01 02 03 00`; little-endian with
+    `observeEndianness`: the logged element stores turn the padded copy into `02 01 00 03` -/
+theorem C01B_sample_writeBytes :
+    (let r := execFromW (sliceWorld (wbExt 1 1)) 40 gsp_ModbusClient_writeBytes (wbEnv 0 true 3 1 0)
+        [seedInput [], seedInput [1, 2, 3]]
+     r.how = .stoppedAt "mc.writeRegisters" [.int 0, .int 4] ∧ bytesAt r.calls 4 = some [1, 2, 3, 0]) ∧
+    (let r := execFromW (sliceWorld (wbExt 2 1)) 40 gsp_ModbusClient_writeBytes (wbEnv 0 false 2 1 0)
+        [seedInput [], seedInput [1, 2]]
+     r.how = .stoppedAt "mc.writeRegisters" [.int 0, .int 3] ∧ bytesAt r.calls 3 = some [1, 2]) ∧
+    (let r := execFromW (sliceWorld (wbStoreExt 1 [1, 2, 3, 0])) 40 wbGs (wbEnv 0 true 3 1 0)
+        [seedInput [], seedInput [1, 2, 3]]
+     r.how = .stoppedAt "mc.writeRegisters" [.int 0, .int 4] ∧ bytesAt r.calls 4 = some [1, 2, 3, 0] ∧
+     storeOf [1, 2, 3, 0] r.calls = [2, 1, 0, 3] ∧ swapPairs [1, 2, 3, 0] = some [2, 1, 0, 3]) := by
+  decide +kernel
+
+end sensitivity
+
 end Modbus.Props.C01
 
 #print axioms Modbus.Props.C01.C01B_mbap_frame
@@ -1515,6 +1877,7 @@ end Modbus.Props.C01
 #print axioms Modbus.Props.C01.C01B_core_payloads
 #print axioms Modbus.Props.C01.C01B_core_payloads_spelled
 #print axioms Modbus.Props.C01.C01B_request_shapes
+#print axioms Modbus.Props.C01.C01B_WriteRegister_any
 #print axioms Modbus.Props.C01.C01B_multi_instr
 #print axioms Modbus.Props.C01.C01B_multi_payloads
 #print axioms Modbus.Props.C01.C01B_multi_model
@@ -1522,3 +1885,15 @@ end Modbus.Props.C01
 #print axioms Modbus.Props.C01.C01B_writeBytes
 #print axioms Modbus.Props.C01.C01B_stale_len_harmless
 #print axioms Modbus.Props.C01.C01B_writeBytes_le
+#print axioms Modbus.Props.C01.C01B_writeBytes_model
+#print axioms Modbus.Props.C01.C01B_sample_frames
+#print axioms Modbus.Props.C01.C01B_sample_frames_more
+#print axioms Modbus.Props.C01.C01B_variants
+#print axioms Modbus.Props.C01.C01B_sensitive_byteCount
+#print axioms Modbus.Props.C01.C01B_sensitive_addrQty
+#print axioms Modbus.Props.C01.C01B_sensitive_coilBytes
+#print axioms Modbus.Props.C01.C01B_sensitive_mbap
+#print axioms Modbus.Props.C01.C01B_sensitive_crc
+#print axioms Modbus.Props.C01.C01B_sensitive_multi
+#print axioms Modbus.Props.C01.C01B_sensitive_noProbe
+#print axioms Modbus.Props.C01.C01B_sample_writeBytes
